@@ -164,9 +164,10 @@ theorem C12_release_sites_disciplined :
 wrapper (`numpy::aligned_array`, `array_base`) is constructed lexically — for these sites skeleton and
 code agree with `C12_gil_discipline_all_paths` — are all sites but at most three.
 Missing: the remaining sites (listed by the driver, `kind=sites`) touch a reference count of a possibly
-shared array without the lock (`C12_gil_discipline_violations` (1)); and wrappers copied *by value*
-into helper functions below a released region are not visible to the lexical extraction. Both are
-covered only by the reference-count stress run. -/
+shared array without the lock (`C12_gil_discipline_violations` (1)); helper objects whose constructor
+builds a wrapper (field `helperWrappers`: `filter_iterator` of `_filters.h`, constructed inside 11 released
+regions — an OPEN known finding) and wrappers copied *by value* into helper functions are not counted
+here. These are covered by the reference-count stress run and the harness' site check only. -/
 theorem C12_release_sites_without_wrappers_partial :
     (Generated.gilSites.filter (fun s => decide (s.wrappers ≠ 0))).length ≤ 3 := by
   decide
